@@ -156,7 +156,7 @@ def stageName (n : Nat) : String := ".gpdb-merge-stage-" ++ toString n
 /-- the directories of the destination root -/
 def rootNames (fs : Fs) : List String := (List.range fs.stages).map stageName ++ fs.ifaces
 
-/-- `info.GetInterfaces` (with the fix: hidden directories are skipped) -/
+/-- `info.GetInterfaces` (with the fix: merge staging directories are skipped) -/
 def getInterfaces (fs : Fs) : List String := sortStrs ((rootNames fs).filter (!isHidden ·))
 
 /-- `info.GetInterfaces` before the fix: every directory of the root -/
